@@ -55,6 +55,7 @@ TConn == /\ l <= Len(TraceLog) /\ Line.op = "conn"
             /\ t.want = "full" => t.ress = 0
             /\ (t.want = "id" /\ t.hadid = 1) => t.ress = 1        \* (a session the full cache could not register has no id)
             /\ (t.want = "id" /\ t.hadid = 0) => t.ress = 0
+            /\ t.want = "idems" => t.ress = 0               \* RFC 7627 5.3: a session made without extended master secret is not resumed when it is offered with it
             /\ (t.want \in {"ticket", "psk"} /\ t.tk0 >= 0) =>
                    /\ SurelyPresent(t.tk0, t.t0, t.t1) => t.ress = 1
                    /\ SurelyAbsent(t.tk0, t.t0, t.t1) => t.ress = 0
